@@ -433,3 +433,221 @@ PROPS['C06'] = C06Spec(
                      'blocking:3c', 'full-and-empty-agent',
                      'fault-free-stab'))
 PROPS['C06'].oracle = oracles.c06
+
+
+# ---------------------------------------------------------------------------
+# generator family
+# ---------------------------------------------------------------------------
+import oracles_gen   # noqa: E402
+
+COMPONENTS_GEN = {
+    'real': ['matchingproblems.generator (Instance_options_parser, '
+             'Generator_ha_sm_hr, Generator_spa, generator_shared) from /repo '
+             'working tree', 'random / numpy.random (real RNG code, '
+             'simulator-chosen state)', 'real file system (per-run directory '
+             'observed by audit hook)',
+             'matchingproblems.solver on the generated files (C09, C13)'],
+    'stub': ['MILP back end (C09 LP sessions): enumerating stand-in',
+             'wall clock: simulated']}
+ASSUME_GEN = [
+    'the reference parser (sim/refmodel.py) implements the documented file '
+    'grammar; it shares no code with the repository',
+    'generator runs are made reproducible by seeding random and numpy.random '
+    'immediately before Generator(args); the two seeds are part of the '
+    'scenario']
+
+
+def shrink_params(p, keep=()):
+    """Simpler legal parameter sets."""
+    def ok(q):
+        mp = q['mp']
+        n2 = q.get('n2', q['n1']) if mp != 'sm' else q['n1']
+        if q['pmax'] > n2 or q['pmin'] > q['pmax'] or q['pmin'] < 1:
+            return False
+        if mp != 'sm' and (q['uq'] < n2 or (q.get('lq') or 0) > q['uq']):
+            return False
+        if mp == 'spa':
+            if (q.get('lt') or 0) > q['luq'] or \
+                    (q.get('llq') or 0) > (q.get('lt') or 0):
+                return False
+        return q['n1'] >= 1 and n2 >= 1 and q.get('numinst', 1) >= 1
+    cands = []
+    if p.get('numinst', 1) > 1:
+        cands.append(dict(p, numinst=1))
+        cands.append(dict(p, numinst=p['numinst'] // 2))
+    for k in ('t1', 't2', 'skew', 'lq', 'llq', 'lt', 'flag_order'):
+        if p.get(k) is not None and k not in keep:
+            cands.append(dict(p, **{k: None}))
+    for k in ('n1', 'n2', 'n3', 'pmax', 'pmin', 'uq', 'luq'):
+        if p.get(k) is not None and p[k] > 1 and k not in keep:
+            q = dict(p, **{k: p[k] - 1})
+            if k == 'n2' and q.get('uq') is not None and 'uq' not in keep:
+                pass
+            cands.append(q)
+    for q in cands:
+        if ok(q):
+            yield q
+
+
+class GenSpec(object):
+    level = 'exploration'
+    min_budget = {'quick': 200, 'thorough': 300}
+    components = COMPONENTS_GEN
+    assumptions = ASSUME_GEN
+    required_probes = ()
+
+    def __init__(self, prop, rule, runs, oracle, required_probes=()):
+        self.prop = prop
+        self.rule = rule
+        self.runs = runs
+        self.oracle = oracle
+        self.builder = scenarios.BUILDERS[prop]
+        self.required_probes = required_probes
+
+    def build(self, rng, tier):
+        sc = self.builder(rng, tier)
+        sc['tier'] = tier
+        return sc
+
+    def expand(self, sc, rng, tier):
+        return [sc]
+
+    def evaluate(self, sc, xstats=None, xrng=None):
+        xcheck = None
+        if xstats is not None and sc.get('sessions'):
+            xcheck = {'rate': 0.03,
+                      'rng': random.Random(sc['rng'][0] ^ 0x5bd1e995),
+                      'stats': xstats}
+        tr = execute.run_gen(sc, xcheck=xcheck)
+        return tr, self.oracle(sc, tr)
+
+    def shrink(self, sc):
+        if sc.get('reach'):
+            return
+        sess = sc.get('sessions') or []
+        if len(sess) > 1:
+            for k in range(len(sess)):
+                c = copy.deepcopy(sc)
+                c['sessions'] = [sess[k]]
+                yield c
+        for k, s in enumerate(sess):
+            o = s.get('opts', {})
+            for j in range(len(o.get('criteria', []))):
+                c = copy.deepcopy(sc)
+                del c['sessions'][k]['opts']['criteria'][j]
+                yield c
+            for flag in ('pc', 'stab'):
+                if o.get(flag):
+                    c = copy.deepcopy(sc)
+                    c['sessions'][k]['opts'][flag] = False
+                    yield c
+            if s.get('backend', {}).get('policy') not in (None, 'first'):
+                c = copy.deepcopy(sc)
+                c['sessions'][k]['backend']['policy'] = 'first'
+                yield c
+        nfiles = sc['params'].get('numinst', 1)
+        for q in shrink_params(sc['params'], keep=sc.get('keep', ())):
+            c = copy.deepcopy(sc)
+            c['params'] = q
+            if q.get('numinst', 1) < nfiles:
+                c['sessions'] = [s for s in c['sessions']
+                                 if int(s['file'].split('.')[0]) <
+                                 q['numinst']]
+            if not q.get('twopl'):
+                for s in c['sessions']:
+                    s['twopl'] = False
+            yield c
+
+
+class C15Spec(GenSpec):
+    def expand(self, sc, rng, tier):
+        out = [sc]
+        perts = scenarios.perturbations(sc['params'])
+        if tier == 'quick':
+            # all labels are covered over the batch; per scenario a seeded
+            # third of them keeps the quick tier short
+            perts = [x for x in perts if rng.random() < 0.34]
+        for label, q, extra in perts:
+            c = copy.deepcopy(sc)
+            c['params'] = q
+            c['expect'] = 'reject'
+            c['perturbation'] = label
+            c.update(extra)
+            out.append(c)
+        return out
+
+    def shrink(self, sc):
+        if sc.get('expect') == 'accept':
+            for q in shrink_params(sc['params']):
+                c = copy.deepcopy(sc)
+                c['params'] = q
+                yield c
+            return
+        p = sc['params']
+        for k in ('t1', 't2', 'skew', 'flag_order', 'lq', 'llq', 'lt'):
+            if p.get(k) is not None and k not in sc['perturbation']:
+                c = copy.deepcopy(sc)
+                c['params'][k] = None
+                yield c
+        if p.get('numinst') and p['numinst'] > 1 and \
+                'numinst' not in sc['perturbation']:
+            c = copy.deepcopy(sc)
+            c['params']['numinst'] = 1
+            yield c
+
+
+PROPS['C08'] = GenSpec(
+    'C08',
+    'seeded accepted generator argument vectors (all four types, counts, '
+    'pmin/pmax, quota sums, tie probabilities incl. 0 and 1, skew, one/two '
+    'sided, numinst 1..3) x two RNG seeds; one run in twelve is a '
+    'reachability run (>= 360 lists of one (pmin,pmax) class: every length '
+    'must occur); every run is checked in full, so every run is non-trivial; '
+    'distinct = distinct event-log digests',
+    {'quick': 6000, 'thorough': 150000}, oracles_gen.c08,
+    required_probes=('mp:ha', 'mp:sm', 'mp:hr', 'mp:spa', 't1-extreme',
+                     't2-extreme', 'reachability-run', 'one-sided',
+                     'more-lecturers-than-projects'))
+PROPS['C12'] = GenSpec(
+    'C12',
+    'seeded two-sided sm/hr/spa generator runs x two RNG seeds; non-trivial = '
+    'some second-side agent is ranked by at least two first-side agents; '
+    'distinct = distinct event-log digests among those',
+    {'quick': 6000, 'thorough': 150000}, oracles_gen.c12,
+    required_probes=('student-ranks-several-projects-of-a-lecturer',
+                     'second-side-agent-nobody-ranks',
+                     'more-lecturers-than-projects'))
+PROPS['C13'] = GenSpec(
+    'C13',
+    'seeded generator runs with tie probabilities in {.3,.5,.7,1} and lists '
+    'up to length 6; the writer\'s (list, decisions) -> strings calls are '
+    'observed, the same files are loaded by the real solver and the ranks '
+    'compared on both sides; coverage = distinct (length, decision vector) '
+    'pairs hit out of the 127 with length <= 6 (seeded search with a '
+    'coverage measure, not exhaustive enumeration); non-trivial = a list of '
+    'length >= 2 made the round trip',
+    {'quick': 5000, 'thorough': 120000}, oracles_gen.c13,
+    required_probes=('second-side-list-checked', 'na:2', 'na:3'))
+PROPS['C09'] = GenSpec(
+    'C09',
+    'seeded generator argument vectors (small: <= 4 agents per side, lists '
+    '<= 3) x RNG seeds, each generated file then loaded and solved by the '
+    'real solver in LP mode (random admissible option set, -stab when '
+    'two-sided, stand-in back end with seeded tie-break) and in brute-force '
+    'mode, in one simulated world; every run is a full comparison with the '
+    'reference parse and semantics; distinct = distinct event-log digests',
+    {'quick': 4000, 'thorough': 100000}, oracles_gen.c09,
+    required_probes=('mp:ha', 'mp:sm', 'mp:hr', 'mp:spa', 'session:bf',
+                     'session:lp', 'lp-stab', 'bf-infeasible',
+                     'lp-infeasible'))
+PROPS['C15'] = C15Spec(
+    'C15',
+    'seeded legal generator argument vectors per type, and all single-fault '
+    'perturbations of each (one required parameter removed incl. -numinst, '
+    '-o, -mp; one parameter documented only for other types added; one bound '
+    'violated); acceptance with numinst files, or SystemExit(2) with usage '
+    'text and zero mkdir/write events in the audit-hook spy; distinct = '
+    'distinct event-log digests (every run is non-trivial)',
+    {'quick': 1500, 'thorough': 40000}, oracles_gen.c15,
+    required_probes=('accept:ha', 'accept:sm', 'accept:hr', 'accept:spa',
+                     'reject:drop-required', 'reject:banned', 'reject:bound'))
